@@ -1039,6 +1039,71 @@ example :
     (istep w 10 s (.advance 0 5)).2.1 = [(120, 0), (180, 0)] ∧ (istep w 10 s (.advance 1 5)).2.1 = [(240, 1), (300, 1)] := by
   decide
 
+/-! ## the object passed as `dates=`: any iterable, walked again and again or single-use
+
+The three iteration sites walk the caller's object exactly once (`Generated.datesWalks`, read from the source on every run):
+whatever the object is — a list, a `DateRange`, or a single-use iterator such as a generator expression, `iter(list)`,
+`reversed(list)`, `map(...)` or the library's own `Ephem.dates` — the iteration yields the dates the object has to hand out. -/
+
+theorem src_walk_items (x : Src) : x.walk.1 = x.items := by cases x <;> rfl
+
+theorem src_walk_again (l : List Int) : (Src.again l).walk.2 = .again l := rfl
+
+/-- a single-use iterator is empty after one walk -/
+theorem src_walk_once_exhausts (l : List Int) : (Src.once l).walk.2 = .once [] := rfl
+
+/-- an object whose `iter()` gives a fresh cursor may be walked any number of times: the last walk sees all its dates -/
+theorem src_walkN_again (n : Nat) (l : List Int) : Src.walkN (n + 1) (.again l) = (l, .again l) := by
+  induction n with
+  | zero => rfl
+  | succ n ih =>
+    show Src.walkN (n + 1) (Src.again l).walk.2 = _
+    exact ih
+
+/-- a single-use iterator hands its dates to the FIRST walk only: an implementation that walks `dates` twice (a check loop
+before the propagation loop, `min(dates)` before `for date in dates`, `len(list(dates))` ...) propagates to nothing -/
+theorem src_walkN_once_lost (n : Nat) (l : List Int) : Src.walkN (n + 2) (.once l) = ([], .once []) := by
+  have h : ∀ m : Nat, Src.walkN (m + 1) (.once []) = ([], .once []) := by
+    intro m
+    induction m with
+    | zero => rfl
+    | succ m ih =>
+      show Src.walkN (m + 1) (Src.once []).walk.2 = _
+      exact ih
+  show Src.walkN (n + 1) (Src.once l).walk.2 = _
+  exact h n
+
+/-- the number of walks of the caller's `dates` object, per iteration site, as read from the source text on this run -/
+theorem dates_walks_match : Generated.datesWalks = [("analytical", 1), ("ephem", 1), ("num", 1)] := by decide
+
+/-- **iter_dates_source** (SGP4, Kepler, J2, None, CW): for EVERY kind of `dates` object the iterator yields exactly the dates
+the object has to hand out, in its order, and a single-use object is left exhausted -/
+theorem iter_dates_source {V : Type} (w : World V) (hk : w.kind ≠ .ephem) (hn : w.kind ≠ .num) (fuel i : Nat) (a : Args) (x : Src)
+    (listening : Bool) :
+    iterRunSrc w 1 fuel i a x listening = ((true, ⟨x.items, .done⟩), x.walk.2) := by
+  have hl := iter_dates_list fuel (w.epoch i) none { a with dates := some (.list x.walk.1) } x.walk.1 rfl
+  unfold iterRunSrc iterRun
+  simp only [Src.walkN]
+  rw [← src_walk_items]
+  cases hkd : w.kind <;> simp_all
+
+/-- … (ephemeris): dates inside the tabulated span -/
+theorem ephem_iter_dates_source {V : Type} (w : World V) (hk : w.kind = .ephem) (first last : Int) (hh : w.pts.head? = some first)
+    (hl : w.pts.getLast? = some last) (x : Src) (hord : x.items ≠ [] → w.order ≤ w.pts.length)
+    (hin : ∀ d ∈ x.items, first ≤ d ∧ d ≤ last) (fuel i : Nat) (a : Args) (listening : Bool) :
+    iterRunSrc w 1 fuel i a x listening = ((true, ⟨x.items, .done⟩), x.walk.2) := by
+  unfold iterRunSrc iterRun
+  simp only [Src.walkN, hk, src_walk_items]
+  rw [ephem_iter_dates_list fuel w.order w.pts first last hh hl x.items hord hin]
+
+/-- … (KeplerNum): any integration method, `m` integration steps cover the dates and fill the interpolation order -/
+theorem numerical_iter_dates_source {V : Type} (w : World V) (hk : w.kind = .num) (fuel m i : Nat) (a : Args) (x : Src)
+    (listening : Bool) (hspan : ∀ p ∈ x.items, ∀ q ∈ x.items, q ≤ endp w.rs 1 p m) (hmo : w.order ≤ m + 1) (hf : m < fuel) :
+    (iterRunSrc w 1 fuel i a x listening).1.2 = ⟨x.items, .done⟩ ∧ (iterRunSrc w 1 fuel i a x listening).2 = x.walk.2 := by
+  unfold iterRunSrc iterRun
+  simp only [Src.walkN, hk, src_walk_items, and_true]
+  exact numerical_iter_dates_list fuel w.order m (w.epoch i) w.h w.rs w.stepIdent _ x.items listening rfl hspan hmo hf
+
 /-! ## ties to the source regenerated on every run -/
 
 def kindName : Kind → String
@@ -1067,5 +1132,9 @@ theorem cw_points_own_propagator_matches : Generated.cwPointsOwnPropagator = tru
 /-- `DateRange.__iter__` is a generator function and `DateRange` has no `__next__`: every consumer of a range object gets a
 cursor of its own (the model treats a `DateRange` as an immutable description) -/
 theorem date_range_iter_fresh_matches : Generated.dateRangeIterIsFreshGenerator = true := by decide
+
+/-- `Ephem.__iter__` returns the ephemeris itself (one cursor on the object): the interleaved use of two iterations over the own
+points of one ephemeris is the `shared = true` case of `Iter.curRun` (Witness `ephem_own_points_shared_cursor`, open finding) -/
+theorem ephem_cursor_shared_matches : Generated.ephemIterSharesCursor = true := by decide
 
 end BeyondVerif.C08
